@@ -37,6 +37,7 @@ def run(ctx):
     ctx.rule("R03.d", "_update_event_type: 'triggered' if triggered else 'changed' if onlychanged else 'set' (4 abstract cases, exhaustive)", floor=1)
     ctx.rule("R03.e", "_register_watcher appends to / removes from the table paths the setter and _trigger_event read", floor=3)
     ctx.rule("R03.f", "_call_watcher: a watcher is skipped iff (not TRIGGER and onlychanged and not changed); otherwise queued iff batching else executed (32 abstract cases, exhaustive)", floor=1)
+    ctx.rule("R03.h", "flush model (abstract interpretation on small queues): every queued watcher runs exactly once in (precedence, queue position) order with the last event per watched parameter; cascaded events are delivered in a further round", floor=1)
     ctx.not_decided += ["exactly-once delivery counts, depth-first cascades and queued semantics over all programs (need an executable reference semantics)"]
 
     f = ctx.repo.method(PARAMETER, "__set__")
@@ -263,3 +264,8 @@ def run(ctx):
         ctx.fail("R03.f", cw, cw.node, "dispatch decision wrong for (TRIGGER=%s, onlychanged=%s, changed=%s, batching=%s): code does `%s`, specification `%s`" % bad[0])
     else:
         ctx.ok("R03.f", cw, cw.node, "32/32 abstract cases agree with the specification")
+
+    # the model-level rule comes last: if the interpreter cannot follow an edited flush,
+    # the structural findings above are still reported
+    from checks.shared import flush_model
+    flush_model(ctx, "R03.h")
